@@ -49,6 +49,7 @@ FIXED = [
  ("C10", "XML serialization of a text node without a parent panicked", "to_string / serialize_xml_string / tokens of a text node without a parent panicked (Option::unwrap on None in XmlSerializer::render_output)"),
  ("C02", "line ends inside CDATA sections were not normalized", "CR LF and lone CR inside a CDATA section were kept verbatim (<![CDATA[x\\r\\ny]]> gave \"x\\r\\ny\"), the same characters in plain text are normalised to LF"),
  ("C02", "an empty CDATA section on its own produced an empty text node", "<a><![CDATA[]]></a> parsed into an element with an empty text child (not deep-equal to <a/>, not round-trippable)"),
+ ("C14", "CR in the text of a CDATA-section element was written raw", "text containing CR under a cdata_section_elements element was written as a raw CR inside the CDATA section and re-parsed as LF (visible once the parser normalised line ends inside CDATA sections)"),
  ("C13", "shallow_equal_ignore_attributes counts", "shallow_equal_ignore_attributes with a name repeated in the ignore list that b carries: the name was subtracted twice (usize underflow panic in dev, wrong answer in release)"),
 ]
 
